@@ -601,7 +601,8 @@ class FileSplicer:
                 kinds = list(s.args); nw = 0
                 k = it.body_open + 1
                 while k < it.body_close:
-                    if src.is_id(k, 'write') and src.is_p(k + 1, '!') and src.is_p(k + 2, '('):
+                    is_format = src.is_id(k, 'format') and src.is_p(k + 1, '!') and src.is_p(k + 2, '(')
+                    if is_format or (src.is_id(k, 'write') and src.is_p(k + 1, '!') and src.is_p(k + 2, '(')):
                         po = k + 2; pc = src.match(po)
                         parts = []; a0 = po + 1; q = po + 1
                         while q < pc:
@@ -610,7 +611,12 @@ class FileSplicer:
                             if tt.kind == 'punct' and tt.text == ',': parts.append((a0, q)); a0 = q + 1
                             q += 1
                         if a0 < pc: parts.append((a0, pc))
-                        bufe = src.text_of(*parts[0])
+                        if is_format:
+                            # `format!(..)`: the sink is a fresh String (N9b); same expansion with the String putters
+                            parts = [None] + parts
+                            bufe = '&mut vx_fs'
+                        else:
+                            bufe = src.text_of(*parts[0])
                         lit = src.t(parts[1][0])
                         if lit.kind != 'str' or parts[1][1] != parts[1][0] + 1: raise SpliceError('unsupported: N9 format string of write! in fn %s is not a literal' % key)
                         lt = lit.text
@@ -620,26 +626,30 @@ class FileSplicer:
                             body = bytes(lt[1:-1], 'utf-8').decode('unicode_escape')
                         if '{{' in body or '}}' in body: raise SpliceError('unsupported: N9 escaped braces in fn %s' % key)
                         # `{}` takes the next positional argument, `{ident}` names a variable in scope (inline format argument)
-                        toks_ = re.split(r'(\{[A-Za-z_][A-Za-z0-9_]*\}|\{\})', body)
+                        toks_ = re.split(r'(\{[A-Za-z_][A-Za-z0-9_]*\}|\{\}|\{:03\})', body)
                         pieces = toks_[0::2]; holes = toks_[1::2]
                         if any('{' in p_ or '}' in p_ for p_ in pieces): raise SpliceError('unsupported: N9 format spec other than {} / {ident} in fn %s' % key)
                         pos_ = [src.text_of(*p_) for p_ in parts[2:]]
                         argsx = []
                         for h_ in holes:
-                            if h_ == '{}':
+                            if h_ in ('{}', '{:03}'):
                                 if not pos_: raise SpliceError('unsupported: N9 placeholder/argument count in fn %s' % key)
                                 argsx.append(pos_.pop(0))
                             else: argsx.append(h_[1:-1])
                         if pos_: raise SpliceError('unsupported: N9 placeholder/argument count in fn %s' % key)
                         def rl(p_): return '"' + p_.replace('\\', '\\\\').replace('"', '\\"').replace('\n', '\\n') + '"'
-                        out = ['{ ']
+                        out = ['{ '] if not is_format else ['{ let mut vx_fs = vx_string_new(); ']
+                        putters = {'str': 'vx_put_str', 'u64': 'vx_put_u64', 'usize': 'vx_put_usize', 'u8': 'vx_put_u8d', 'u16': 'vx_put_u16', 'u32': 'vx_put_u32', 'u128': 'vx_put_u128', 'u128pad3': 'vx_put_u128_pad3'}
+                        if is_format: putters = {'str': 'vx_sput_str', 'u128': 'vx_sput_u128', 'u128pad3': 'vx_sput_u128_pad3'}
                         for i_, p_ in enumerate(pieces):
-                            if p_: out.append('proof { reveal_strlit(%s); } vx_put_str(%s, %s); ' % (rl(p_), bufe, rl(p_)))
+                            if p_: out.append('proof { reveal_strlit(%s); } %s(%s, %s); ' % (rl(p_), putters['str'], bufe, rl(p_)))
                             if i_ < len(argsx):
                                 if not kinds: raise SpliceError('lost anchor: fmtwrite of fn %s names too few placeholder kinds' % key)
                                 kd = kinds.pop(0)
-                                out.append(('%s(%s, %s); ' if kd == 'str' else '%s(%s, &%s); ') % ({'str': 'vx_put_str', 'u64': 'vx_put_u64', 'usize': 'vx_put_usize', 'u8': 'vx_put_u8d', 'u16': 'vx_put_u16', 'u32': 'vx_put_u32'}[kd], bufe, argsx[i_]))
-                        out.append('vx_fmt_ok() }')
+                                if (holes[i_] == '{:03}') != kd.endswith('pad3'): raise SpliceError('unsupported: N9 format spec %s against putter kind %s in fn %s' % (holes[i_], kd, key))
+                                if kd not in putters: raise SpliceError('unsupported: N9 putter kind %s in fn %s' % (kd, key))
+                                out.append(('%s(%s, %s); ' if kd == 'str' else '%s(%s, &(%s)); ') % (putters[kd], bufe, argsx[i_]))
+                        out.append('vx_fmt_ok() }' if not is_format else 'vx_fs }')
                         k0 = k
                         # a path prefix `::std::` / `std::` in front of the macro name goes with it
                         if src.is_p(k0 - 1, ':') and src.is_p(k0 - 2, ':') and src.is_id(k0 - 3, 'std'):
@@ -648,7 +658,7 @@ class FileSplicer:
                         self.ed.replace(src.t(k0).start, src.t(pc).end, ''.join(out))
                         nw += 1; k = pc + 1; continue
                     k += 1
-                if nw == 0 and not s.optional: raise SpliceError('lost anchor: fn %s has no write!(' % key)
+                if nw == 0 and not s.optional: raise SpliceError('lost anchor: fn %s has no write!( / format!(' % key)
                 if nw: applied.append('N9')
             if s.word == 'select':
                 self.select_rewrite(it, applied)
